@@ -4,5 +4,6 @@ CONSTANTS MaxLen = 3
           NAtoms = 2
           DevFinals = TRUE
           Sampled = FALSE
-INVARIANTS SortInv TrieInv MinInv ElimInv FinalInv AnchorInv SymbolicInv Replay
+          WithRep = TRUE
+INVARIANTS SortInv ClusterInv TrieInv MinInv ElimInv FinalInv AnchorInv SymbolicInv Replay
 CHECK_DEADLOCK FALSE
